@@ -58,6 +58,12 @@ var CFCorpus = []string{
 	"[ForInitY[ForInitY[Y]]]",           //
 	"[SwInitY[Y Br] E]",                 //
 	"[Block[Block[Y] E] E]",             //
+	"[Y RtCall]",                        // return with a non-nil operand: evaluated, ignored
+	"[Y RtIdx]",                         // ... whose evaluation may panic (index out of range)
+	"[While[Y If[RtSel]] E]",            // ... nil pointer selector, inside a loop
+	"[YFLit[Y RtIdx] E]",                // ... inside a delegate: the panic must come out of the outer advance
+	"[Sw2[Y RtIdx][RtCall]]",            //
+	"[ForPostY[If[RtSel] E]]",           //
 }
 
 // CFFamilies: the control-flow corpus of a tier, as one family so that root reduction sees every
@@ -82,7 +88,7 @@ func CFFamilies(tier string) []*FamilySpec {
 	lists = append(lists, closeUnderReductions(gen.CFAll, corpus)...)
 	// added as they are (not closed under reduction: that would multiply the quick corpus by four)
 	lists = append(lists, jumpContextCorpus(tier)...)
-	return []*FamilySpec{genFamily("CF", gen.CFAll, lists), HandFamily("pool", "pool.go.txt")}
+	return []*FamilySpec{genFamily("CF", gen.CFAll, lists), HandFamily("pool", "pool.go.txt"), yexprFamily(tier)}
 }
 
 type famCache struct {
@@ -232,7 +238,7 @@ func jumpContextCorpus(tier string) []gen.List {
 		pos int
 	}
 	wraps := []wrap{{"If", 1, 0}, {"IfElse", 2, 0}, {"IfElse", 2, 1}, {"IfElif", 2, 1}, {"IfInit", 1, 0}, {"Sw1", 1, 0}, {"Sw2", 2, 0}, {"Sw2", 2, 1},
-		{"Sw3", 3, 1}, {"SwNoTag", 2, 0}, {"SwNoTag", 2, 1}, {"TySw", 2, 0}, {"TySwBind", 2, 1}, {"SwInitE", 1, 0}, {"Block", 1, 0}}
+		{"IfElifElse", 3, 1}, {"IfElifElse", 3, 2}, {"Sw3", 3, 1}, {"SwNoTag", 2, 0}, {"SwNoTag", 2, 1}, {"TySw", 2, 0}, {"TySwBind", 2, 1}, {"SwInitE", 1, 0}, {"Block", 1, 0}}
 	mk := func(w wrap, inner gen.List) *gen.Stmt {
 		st := &gen.Stmt{K: w.k}
 		for i := 0; i < w.n; i++ {
@@ -257,6 +263,22 @@ func jumpContextCorpus(tier string) []gen.List {
 				inner := append(append(gen.List{}, pre...), &gen.Stmt{K: j})
 				for _, w := range wraps {
 					add(loop, gen.List{mk(w, inner), y})
+				}
+			}
+		}
+	}
+	// a plain (non-yielding) condition-less loop as last statement of a block that becomes a thunk:
+	// whether the thunk needs its own `return Normal` hinges on finding the loop's breaks
+	for _, outer := range []string{"While", "If", "Sw1", "Block"} {
+		for _, j := range []string{"Br", "Rt"} {
+			for _, w := range wraps {
+				if w.k == "Block" {
+					continue
+				}
+				inf := &gen.Stmt{K: "ForInf", Ch: [][]*gen.Stmt{{mk(w, gen.List{{K: j}})}}}
+				l := gen.List{{K: outer, Ch: [][]*gen.Stmt{{y, inf}}}, e}
+				if gen.CFAll.WellFormed(l) {
+					out = append(out, l)
 				}
 			}
 		}
